@@ -19,6 +19,7 @@ stop_words = {
     "as",
     "assert",
     "async",
+    "await",
     "bool",
     "break",
     "class",
